@@ -18,7 +18,10 @@ This is the model of the code WITH the C05 repairs:
 * `AttributeVariable.print` leaves a default value out only when the variable is optional
   (was: always, although a non-optional variable is parsed unconditionally);
 * `FunctionalTypeDirective.print` wraps a single result type in parentheses when it is itself a
-  function type.
+  function type;
+* `UniqueBaseAttributeVariable.parse` (and `TypedAttributeVariable`) honours `is_optional`: an
+  optional variable whose first token is not its value reports absence (was: parsed unconditionally),
+  so every attribute variable is parsed optionally exactly when it is optional.
 
 Nested optional groups are not modelled (groups contain simple directives only).  No proofs here.
 -/
@@ -78,9 +81,9 @@ inductive SDir
   | resultTy (i : Nat) (k : Kind)
   | region (i : Nat) (k : Kind)
   | succ (i : Nat) (k : Kind)
-  /-- `AttributeVariable` and subclasses: `optional` = `is_optional`; `optParse` = the parser accepts
-  absence (false for `UniqueBase/TypedAttributeVariable`, which ignore `is_optional`) -/
-  | attr (name : String) (isProp : Bool) (optional : Bool) (optParse : Bool) (dflt : Option Nat)
+  /-- `AttributeVariable` and subclasses: `optional` = `is_optional` (the parser accepts absence
+  exactly then) -/
+  | attr (name : String) (isProp : Bool) (optional : Bool) (dflt : Option Nat)
   | unitAttr (name : String) (isProp : Bool) (unitVal : Nat)
   | attrDict (withKw : Bool) (reserved : List String) (expProps : List String)
   -- aggregate directives: executable model only (no theorem)
@@ -132,7 +135,7 @@ def printS (D : Defs) (op : OpInst) : SDir → List Tok
   | .resultTy i _ => commaSep Tok.ty (seg op.resultTys i)
   | .region i _ => (seg op.regions i).map Tok.region
   | .succ i _ => commaSep Tok.succ (seg op.succs i)
-  | .attr name isProp optional _ dflt =>
+  | .attr name isProp optional dflt =>
     match dictGet isProp op name with
     | none => []
     | some v => if optional && dflt == some v then [] else [Tok.attr v]
@@ -158,7 +161,7 @@ def presentS (op : OpInst) : SDir → Bool
   | .region i .single => (seg op.regions i).any (· != 0)
   | .region i _ => !(seg op.regions i).isEmpty
   | .succ i _ => !(seg op.succs i).isEmpty
-  | .attr name isProp _ _ dflt =>
+  | .attr name isProp _ dflt =>
     match dictGet isProp op name with
     | none => false
     | some v => !(dflt == some v)
@@ -400,8 +403,8 @@ def parseS (D : Defs) (d : SDir) (ts : List Tok) (st : PState) : PR :=
   | .succ i .var =>
     (optList selSucc badNone ts).map fun p =>
       (!p.1.isEmpty, { st with succs := AL.set st.succs i p.1 }, p.2)
-  | .attr name isProp _ optParse _ =>
-    if optParse then
+  | .attr name isProp optional _ =>
+    if optional then
       (optOne selAttr badAttr ts).map fun p =>
         match p.1 with
         | some v => (true, setDict isProp st name v, p.2)
@@ -587,7 +590,7 @@ def firstS : SDir → List Cls
   | .resultTy _ _ => [.ty]
   | .region _ _ => [.region]
   | .succ _ _ => [.succ]
-  | .attr _ _ _ _ _ => [.attr]
+  | .attr _ _ _ _ => [.attr]
   | .unitAttr _ _ _ => []
   | .attrDict withKw _ _ => if withKw then [.kw "attributes"] else [.dict]
   | .operandsAll => [.val]
@@ -604,7 +607,7 @@ def nullableS : SDir → Bool
   | .resultTy _ k => kindNullable k
   | .region _ k => kindNullable k
   | .succ _ k => kindNullable k
-  | .attr _ _ optional _ _ => optional
+  | .attr _ _ optional _ => optional
   | .unitAttr _ _ _ => true
   | .attrDict _ _ _ => true
   | .operandsAll => true
@@ -659,7 +662,7 @@ def conflict (d : SDir) (c : Cls) : Bool :=
   | .resultTy _ _ => clsBadTy c
   | .region _ _ => clsBadBrace c
   | .succ _ _ => c == .succ
-  | .attr _ _ _ _ _ => clsBadAttr c
+  | .attr _ _ _ _ => clsBadAttr c
   | .unitAttr _ _ _ => false
   | .attrDict withKw _ _ => if withKw then c == .kw "attributes" else clsBadBrace c
   | .operandsAll => c == .val
@@ -689,12 +692,6 @@ def okFollow (d : SDir) (F : List Cls) : Bool :=
   (!commaLike d || !F.contains (.punct ",")) &&
   (!regionLike d || F.all (fun c => !clsBadBrace c))
 
-/-- an attribute variable whose parser ignores `is_optional` (unique-base / typed variants) must not
-be parsed where it may have printed nothing -/
-def okShape : SDir → Bool
-  | .attr _ _ optional optParse _ => optional == optParse
-  | _ => true
-
 /-- directives covered by the theorem `decl_roundtrip` (the aggregates are executable only) -/
 def inFragment : SDir → Bool
   | .operandsAll => false
@@ -703,10 +700,9 @@ def inFragment : SDir → Bool
   | .funcTy _ _ => false
   | _ => true
 
-/-- `a`: a directive that is exempt from `okShape` (the anchor of the group: present whenever parsed) -/
-def wfSeq (a : Option SDir) : List SDir → List Cls → Bool
+def wfSeq : List SDir → List Cls → Bool
   | [], _ => true
-  | d :: ds, K => (okShape d || a == some d) && okFollow d (firstSeq ds K) && wfSeq a ds K
+  | d :: ds, K => okFollow d (firstSeq ds K) && wfSeq ds K
 
 def isLiteral : SDir → Bool
   | .kw _ => true
@@ -722,7 +718,7 @@ def okFirst : SDir → Bool
   | .resultTy _ k => kindNullable k
   | .region _ _ => true
   | .succ _ k => kindNullable k
-  | .attr _ _ optional _ _ => optional
+  | .attr _ _ optional _ => optional
   | _ => false
 
 /-- allowed as anchor -/
@@ -732,7 +728,7 @@ def okAnchor : SDir → Bool
   | .resultTy _ k => kindNullable k
   | .region _ _ => true
   | .succ _ k => kindNullable k
-  | .attr _ _ optional _ dflt => optional || dflt.isSome
+  | .attr _ _ optional dflt => optional || dflt.isSome
   | .unitAttr _ _ _ => true
   | _ => false
 
@@ -745,7 +741,7 @@ def okInGroup : SDir → Bool
   | .resultTy _ k => kindNullable k
   | .region _ _ => true
   | .succ _ k => kindNullable k
-  | .attr _ _ optional _ dflt => optional || dflt.isSome
+  | .attr _ _ optional dflt => optional || dflt.isSome
   | .unitAttr _ _ _ => true
   | _ => false
 
@@ -755,14 +751,14 @@ def okTop : SDir → Bool
 
 def wfD : List Dir → List Cls → Bool
   | [], _ => true
-  | .s d :: ds, K => okTop d && okShape d && okFollow d (firstD ds K) && wfD ds K
+  | .s d :: ds, K => okTop d && okFollow d (firstD ds K) && wfD ds K
   | .group a f r e :: ds, K =>
     let K' := firstD ds K
     okFirst f && okAnchor a && (isLiteral f || a == f) && (f :: r).contains a &&
     (f :: r).all okInGroup && e.all (fun d => okInGroup d && !(match d with | .unitAttr _ _ _ => true | _ => false)) &&
     -- the group is not taken: `f` must report absence on what follows
     (firstSeq e K').all (fun c => !conflict f c) &&
-    okShape f && wfSeq (some a) (f :: r) K' && wfSeq none e K' && wfD ds K
+    wfSeq (f :: r) K' && wfSeq e K' && wfD ds K
 
 
 def fragD : List Dir → Bool
@@ -771,18 +767,16 @@ def fragD : List Dir → Bool
   | .group _ f r e :: ds => inFragment f && r.all inFragment && e.all inFragment && fragD ds
 
 /-- diagnostic twin of `wfD`: which condition fails first (debugging / evidence only) -/
-def whySeq (a : Option SDir) : List SDir → List Cls → String
+def whySeq : List SDir → List Cls → String
   | [], _ => ""
   | d :: ds, K =>
-    if !(okShape d || a == some d) then "shape"
-    else if !okFollow d (firstSeq ds K) then "follow"
-    else whySeq a ds K
+    if !okFollow d (firstSeq ds K) then "follow"
+    else whySeq ds K
 
 def whyD : List Dir → List Cls → Nat → String
   | [], _, _ => "ok"
   | .s d :: ds, K, n =>
     if !okTop d then s!"{n}:top"
-    else if !okShape d then s!"{n}:shape"
     else if !okFollow d (firstD ds K) then s!"{n}:follow"
     else whyD ds K (n + 1)
   | .group a f r e :: ds, K, n =>
@@ -794,9 +788,8 @@ def whyD : List Dir → List Cls → Nat → String
     else if !(f :: r).all okInGroup then s!"{n}:then-element"
     else if !e.all (fun d => okInGroup d && !(match d with | .unitAttr _ _ _ => true | _ => false)) then s!"{n}:else-element"
     else if !(firstSeq e K').all (fun c => !conflict f c) then s!"{n}:untaken-conflict"
-    else if !okShape f then s!"{n}:first-shape"
-    else if whySeq (some a) (f :: r) K' ≠ "" then s!"{n}:then-" ++ whySeq (some a) (f :: r) K'
-    else if whySeq none e K' ≠ "" then s!"{n}:else-" ++ whySeq none e K'
+    else if whySeq (f :: r) K' ≠ "" then s!"{n}:then-" ++ whySeq (f :: r) K'
+    else if whySeq e K' ≠ "" then s!"{n}:else-" ++ whySeq e K'
     else whyD ds K (n + 1)
 
 /-! ## line protocol -/
@@ -861,9 +854,9 @@ def parseSDir (w : String) : Option SDir :=
   | ["rt", i, k] => (i.toNat?).bind fun i => (parseKind k).map (.resultTy i)
   | ["g", i, k] => (i.toNat?).bind fun i => (parseKind k).map (.region i)
   | ["sc", i, k] => (i.toNat?).bind fun i => (parseKind k).map (.succ i)
-  | ["a", n, p, o, op, d] =>
-    (parseBoolS p).bind fun p => (parseBoolS o).bind fun o => (parseBoolS op).bind fun op =>
-      (parseOptNat d).map fun d => .attr n p o op d
+  | ["a", n, p, o, d] =>
+    (parseBoolS p).bind fun p => (parseBoolS o).bind fun o =>
+      (parseOptNat d).map fun d => .attr n p o d
   | ["u", n, p, v] => (parseBoolS p).bind fun p => v.toNat?.map fun v => .unitAttr n p v
   | ["ad", k, res, exp] => (parseBoolS k).map fun k => .attrDict k (parseNames res) (parseNames exp)
   | ["oa"] => some .operandsAll
